@@ -29,6 +29,7 @@ type AbsScen struct {
 	Regime  string  `json:"regime"` // "both": v1 and v2 valid; "v2": v2 only
 	V1OK    bool    `json:"v1ok"`
 	MaxPool int     `json:"maxpool"` // the pool is full when the pooled transactions weigh at least this much
+	MaxBlock int    `json:"maxblock"` // weight limit of one block (the assembler cuts the pool there)
 	N       int     `json:"n"`
 	Parent  []int   `json:"parent"`
 	Height  []int   `json:"height"`
@@ -194,6 +195,7 @@ func (s *Scen) Abstract() AbsScen {
 	n := s.NumAbs()
 	a := AbsScen{Name: s.Name, Regime: s.Regime, V1OK: s.Regime != "v2", N: n, NTx: len(s.Txs), Sets: []any{}, RSets: [][]int{}, Look: []int{}, TxSetC: []int{}}
 	a.MaxPool = int(s.Node(1).L.CS.MaxBlockWeight() * 10) // revalidatePool: txpoolMaxWeight
+	a.MaxBlock = int(s.Node(1).L.CS.MaxBlockWeight())
 	rootH := int(s.Node(1).Height)
 	for k := 1; k <= n; k++ {
 		nd := s.Node(k)
